@@ -321,6 +321,12 @@ func scC06(r *Run) {
 		r.Tracef("  done %s -> %d (%d bytes)", q.desc, status, len(resp.body))
 		if q.hint {
 			if status != 200 {
+				if st != nil && st.ms > q.inv.open+1 {
+					// the request was held up (parked before the delegate) until the segment holding the part
+					// had left the window: an expired URI may fail, it must only not return foreign bytes
+					r.Probe("preload-hint-expired-before-served")
+					return
+				}
 				r.Fail("preload-hint", "status", "preload hint request for part %d returned %d", q.hintNum, status)
 				return
 			}
